@@ -86,7 +86,18 @@ def r_acct(F, V):
                         # pure restore of a value saved from growth_left earlier in the body
                         if any(o[0] == "load" and (last_field(o[1]) or {}).get("name") == "growth_left" for o in gorig):
                             if body.dominates(gi, i) or body.postdominates(gi, i) or gi == i:
-                                good = "growth_left restored to the value saved before the temporary removal"
+                                # the value must have been saved BEFORE the temporary removal (remove / erase), not after it
+                                removers = [j for j, t in body.calls() if (callee_path(t) or "").endswith("RawTable::remove") or (callee_path(t) or "").endswith("::erase_no_drop") or (callee_path(t) or "").endswith("RawTableInner::erase")]
+                                save_blocks = []
+                                for bi, bk, bs in body.stmts():
+                                    if bs["k"] == "assign" and not bs["p"].get("proj") and bs["rv"]["k"] == "use" and bs["rv"]["op"]["k"] in ("copy", "move") and (last_field(bs["rv"]["op"]["p"]) or {}).get("name") == "growth_left":
+                                        save_blocks.append(bi)
+                                saved_before = all(any(body.dominates(sb, rm) for sb in save_blocks) for rm in removers) if removers and save_blocks else bool(save_blocks)
+                                if saved_before:
+                                    good = "growth_left restored to the value saved before the temporary removal"
+                                else:
+                                    good = None
+                                    late_save = True
                 if good:
                     R.inst(key, "items += 1 paired with: %s" % good, "ok", True, where(body, stmt=s))
                 else:
